@@ -17,7 +17,7 @@ from .common import fhex as _fhex, ints
 
 PROP_FILE = "Properties/C09.v"
 GEN = ["GenC09"]
-RUN_FILES = ["Model/C09_run.v"]
+RUN_FILES = ["Model/C09_run.v", "Model/C09_rungen.v"]
 
 POS_TOL = 1e-6          # pixels: PROJ round-trip error bound granted to the positions
 BIG_CHUNK = 4096
@@ -96,6 +96,15 @@ def gen_pairs(ctx):
 
     # the design-round configuration: 37x29 -> 33x31 (31 = 6*5+1 rows... here: 33 rows = 2*16+1, 31 cols = 6*5+1)
     add("design", "laea", "stere", 12.0, 55.0, 9000.0, (37, 29), 0.8, (33, 31), (0.05, -0.05))
+    geos = {"proj": "geos", "lon_0": 0.0, "h": 35785831.0, "ellps": "WGS84"}
+    disk = {"proj": geos, "shape": [40, 40], "extent": [-5570000.0, -5570000.0, 5570000.0, 5570000.0]}
+    fixed = [("geos_disk_to_laea", disk, mk_area(crs_of("laea", 10.0, 50.0, r), 10.0, 50.0, 150000.0, 31, 33)),
+             ("geos_disk_to_stere", disk, mk_area(crs_of("stere", 0.0, 90.0, r), 20.0, 70.0, 200000.0, 26, 21)),
+             ("geos_disk_to_longlat", disk, mk_area(crs_of("longlat", 0.0, 0.0, r), 60.0, 10.0, 300000.0, 21, 31)),
+             ("geos_part_to_merc", {"proj": geos, "shape": [30, 25], "extent": [-2000000.0, 1000000.0, 500000.0, 4000000.0]},
+              mk_area(crs_of("merc", 0.0, 0.0, r), -5.0, 30.0, 80000.0, 31, 17))]
+    for tag, src, dst in fixed[:ctx.n(1, 4)]:
+        pairs.append({"tag": tag, "src": src, "dst": dst, "coef": [1.0, 0.5, -0.25]})
     n = ctx.n(9, 60)
     thin = [(11, 17), (16, 33), (21, 9), (17, 26), (6, 17), (33, 11), (31, 33), (26, 21)]
     for k in range(n):
@@ -356,6 +365,35 @@ def check_pair(ctx, pair, obs_by_chunk, cases_out=None):
     return len(ctx.failures) - n0
 
 
+def check_legacy(ctx, pair, o):
+    """gradient_resampler (the Cython nn / bil kernels on the whole, uncropped source) against the same oracle"""
+    rp = {"pair": {k: pair[k] for k in ("tag", "src", "dst", "coef")}, "legacy": True}
+    if "error" in o:
+        ctx.add_failure("C09.legacy.raises", "%s: gradient_resampler raised %s" % (pair["tag"], o), rp)
+        return
+    h, w = pair["src"]["shape"]
+    H, W = pair["dst"]["shape"]
+    L, P = exact_positions(pair)
+    inside, outside = classify(L, P, h, w)
+    D = data_of(pair)
+    tie = near_tie(L, P)
+    for name, meth, Db, sl in (("nn", "nn", D, None), ("bil", "bilinear", D, None), ("bil3d", "bilinear", 2 * D + 1, 1)):
+        v = np.array(o[name], dtype=np.float64)
+        v = v.reshape(2, H, W)[sl] if sl is not None else v.reshape(H, W)
+        exp, tol = expected_run({"method": meth, "dtype": "float64"}, pair, L, P, Db)
+        if sl is not None:
+            tol *= 2
+        chk = inside & ~(tie if meth == "nn" else np.zeros_like(tie))
+        bad = (chk & ~(np.abs(v - exp) <= tol)) | (outside & ~np.isnan(v))
+        ctx.count("legacy_runs")
+        if bad.any():
+            i, j = map(int, np.argwhere(bad)[0])
+            ctx.add_failure("C09.legacy.%s_value" % ("nn" if meth == "nn" else "bilinear"),
+                            "%s gradient_resampler(method=%s): target pixel (%d,%d) at source (%.6f, %.6f) has value %r, required %s"
+                            % (pair["tag"], meth, i, j, L[i, j], P[i, j], float(v[i, j]),
+                               "no value" if outside[i, j] else "%r (+-%.3g)" % (float(exp[i, j]), tol)), dict(rp, pixel=[i, j]))
+
+
 def RUNS_differs_without_src_chunks(ref, ob, k):
     """True iff the same run WITHOUT source chunking (run 1: bilinear float64) already differs between the chunkings"""
     a, b = ref["runs"][1], ob["runs"][1]
@@ -527,7 +565,7 @@ def interp_oracle(ctx, c, o):
 
 # ------------------------------------------------------------------------------------------------ Coq case text
 HDR = ("From Coq Require Import ZArith List Bool PrimFloat.\nFrom PR Require Import Base.Num Base.F64 Base.ListX Base.Slice "
-       "Model.Blockwise Model.Gradient Model.C09_run.\nImport ListNotations.\nOpen Scope Z_scope.\n")
+       "Model.Blockwise Model.Gradient Model.C09_run Model.C09_rungen.\nImport ListNotations.\nOpen Scope Z_scope.\n")
 
 
 def arrs6(c):
@@ -598,6 +636,7 @@ def run(ctx):
         if cs == BIG_CHUNK:
             payload["direct"] = direct
             payload["interp"] = interp
+            payload["legacy"] = [{"src": p["src"], "dst": p["dst"], "data": [float(v) for v in data_of(p).ravel()]} for p in pairs]
         return cs, ctx.impl("c09", payload, extra_env={"PYTROLL_CHUNK_SIZE": str(cs)}, timeout=1500)
 
     with ThreadPoolExecutor(max_workers=8) as ex:
@@ -616,6 +655,7 @@ def run(ctx):
                  sample={"pair": p["tag"], "src": p["src"], "dst": p["dst"], "inside": int(ins.sum()), "outside": int(outs.sum())})
         ctx.count("pair_%s_to_%s" % (p["src"]["proj"]["proj"], p["dst"]["proj"]["proj"]))
         check_pair(ctx, p, obs_by_chunk)
+        check_legacy(ctx, p, results[BIG_CHUNK]["legacy"][k])
         for cs, ob in obs_by_chunk.items():
             if "trace" in ob:
                 traces.append((p, cs, ob))
@@ -640,7 +680,7 @@ def run(ctx):
             ctx.traces += 1
             L2.append(coq_interp_case(t, 0 if t["meth"] == "nn" else 1, t["out"]))
     texts += [(n, tx, sh, "traced gradient_resampler_indices") for n, tx, sh in coq_files("c09_tr_idx", "search_case", "chk_indices", L1)]
-    texts += [(n, tx, sh, "traced block interpolators") for n, tx, sh in coq_files("c09_tr_interp", "interp_case", "chk_interp", L2)]
+    texts += [(n, tx, sh, "traced block interpolators") for n, tx, sh in coq_files("c09_tr_interp", "interp_case", "chk_interp_both", L2)]
 
     # ---------------- correspondence + oracle: synthetic direct calls
     dobs = results[BIG_CHUNK]["direct"]
@@ -668,7 +708,7 @@ def run(ctx):
         if "error" not in o and c["dtype"] == "float64" and not c["lead"]:
             L5.append(coq_interp_case(c, 0, o["nn"]))
             L5.append(coq_interp_case(c, 1, o["bil"]))
-    texts += [(n, tx, sh, "block interpolators") for n, tx, sh in coq_files("c09_direct_interp", "interp_case", "chk_interp", L5)]
+    texts += [(n, tx, sh, "block interpolators") for n, tx, sh in coq_files("c09_direct_interp", "interp_case", "chk_interp_both", L5)]
 
     res = ctx.coq_eval_many([(n, t) for n, t, _, _ in texts], timeout=900)
     for name, _, lines, what in texts:
@@ -778,6 +818,10 @@ def replay(ctx, data):
     elif case.get("oracle") == "direct_src":
         o = ctx.impl("c09", {"direct": [case["case"]]})["direct"][0]
         source_vs_binary(ctx, case["case"], o)
+    elif case.get("legacy"):
+        p = case["pair"]
+        o = ctx.impl("c09", {"legacy": [{"src": p["src"], "dst": p["dst"], "data": [float(v) for v in data_of(p).ravel()]}]})["legacy"][0]
+        check_legacy(ctx, p, o)
     elif "pair" in case:
         p = case["pair"]
         obs = {}
